@@ -32,6 +32,9 @@ type Atom struct {
 	// Val: for Fix atoms produced by GetUint64Bytes(x)/GetUint32Bytes(x), the
 	// encoded value x expressed in the querying function's terms (nil if lost).
 	Val ssa.Value
+	// Alts: for a Var atom that is an element of a constant string list (`for _, p := range []string{A, B}`),
+	// the literals it ranges over; the site is expanded into one site per literal.
+	Alts []string
 }
 
 func (a Atom) String() string {
@@ -221,7 +224,9 @@ func (e *ksEngine) summary(fn *ssa.Function, depth int) []KeySite {
 				if op, isOp := e.ops[callee]; isOp {
 					args := ci.Common().Args
 					if len(args) >= 2 {
-						out = append(out, KeySite{Op: op, Shape: e.shape(args[1], 0), Fn: f, Call: ci, TopCall: ci, Chain: []ssa.CallInstruction{ci}})
+						for _, sh := range expandAlts(e.shape(args[1], 0)) {
+							out = append(out, KeySite{Op: op, Shape: sh, Fn: f, Call: ci, TopCall: ci, Chain: []ssa.CallInstruction{ci}})
+						}
 					}
 					continue
 				}
@@ -238,12 +243,14 @@ func (e *ksEngine) summary(fn *ssa.Function, depth int) []KeySite {
 				}
 				args := ci.Common().Args
 				for _, s := range sub {
-					ns := s
-					ns.Shape = e.subst(s.Shape, args)
-					ns.TopCall = ci
-					ns.Chain = append([]ssa.CallInstruction{ci}, s.Chain...)
-					ns.Depth = s.Depth + 1
-					out = append(out, ns)
+					for _, sh := range expandAlts(e.subst(s.Shape, args)) {
+						ns := s
+						ns.Shape = sh
+						ns.TopCall = ci
+						ns.Chain = append([]ssa.CallInstruction{ci}, s.Chain...)
+						ns.Depth = s.Depth + 1
+						out = append(out, ns)
+					}
 				}
 			}
 		}
@@ -356,6 +363,12 @@ func (e *ksEngine) shape(v ssa.Value, d int) KeyShape {
 		}
 		return KeyShape{{Kind: AVar, Src: "slice"}}
 	case *ssa.UnOp:
+		// an element of a constant string list
+		if ia, ok := x.X.(*ssa.IndexAddr); ok {
+			if alts := constStringList(ia.X); len(alts) > 0 {
+				return KeyShape{{Kind: AVar, Src: "element of a constant list", Alts: alts}}
+			}
+		}
 		// load of a global string/bytes variable
 		if g, ok := x.X.(*ssa.Global); ok {
 			if lit, ok := globalConstInit(g); ok {
@@ -654,3 +667,84 @@ func ShapeOf(p *ir.P, v ssa.Value) (KeyShape, error) {
 	}
 	return e.shape(v, 0).Norm(), nil
 }
+
+// constStringList: v is a slice over a fresh array every element of which is stored once with a string
+// constant (`[]string{A, B}`); returns the constants.
+func constStringList(v ssa.Value) []string {
+	sl, ok := v.(*ssa.Slice)
+	if !ok || sl.Low != nil || sl.High != nil {
+		return nil
+	}
+	al, ok := sl.X.(*ssa.Alloc)
+	if !ok || al.Referrers() == nil {
+		return nil
+	}
+	pt, ok := al.Type().Underlying().(*types.Pointer)
+	if !ok {
+		return nil
+	}
+	arr, ok := pt.Elem().Underlying().(*types.Array)
+	if !ok {
+		return nil
+	}
+	vals := map[int64]string{}
+	for _, r := range *al.Referrers() {
+		switch x := r.(type) {
+		case *ssa.IndexAddr:
+			k, isK := ir.ConstInt(x.Index)
+			if !isK || x.Referrers() == nil {
+				return nil
+			}
+			for _, u := range *x.Referrers() {
+				st, isSt := u.(*ssa.Store)
+				if !isSt {
+					return nil
+				}
+				c, isC := st.Val.(*ssa.Const)
+				if !isC || c.Value == nil || c.Value.Kind() != constant.String {
+					return nil
+				}
+				if _, dup := vals[k]; dup {
+					return nil
+				}
+				vals[k] = constant.StringVal(c.Value)
+			}
+		case *ssa.Slice, *ssa.DebugRef:
+		default:
+			return nil
+		}
+	}
+	if int64(len(vals)) != arr.Len() || len(vals) == 0 || len(vals) > 8 {
+		return nil
+	}
+	out := make([]string, 0, len(vals))
+	for i := int64(0); i < arr.Len(); i++ {
+		out = append(out, vals[i])
+	}
+	return out
+}
+
+// expandAlts: one shape per choice of the atoms that range over a constant list (at most 16 shapes).
+func expandAlts(s KeyShape) []KeyShape {
+	out := []KeyShape{{}}
+	for _, a := range s {
+		if a.Kind == AVar && len(a.Alts) > 0 && len(out)*len(a.Alts) <= 16 {
+			var next []KeyShape
+			for _, pre := range out {
+				for _, lit := range a.Alts {
+					sh := append(append(KeyShape{}, pre...), Atom{Kind: ALit, Lit: lit})
+					next = append(next, sh)
+				}
+			}
+			out = next
+			continue
+		}
+		for i := range out {
+			out[i] = append(out[i], a)
+		}
+	}
+	return out
+}
+
+// ConstStringList exposes constStringList: the string constants of a `[]string{…}` literal, nil otherwise.
+func ConstStringList(v ssa.Value) []string { return constStringList(v) }
